@@ -49,8 +49,12 @@ Ctxs  == {"thread", "spawn_blocking", "mt_worker", "mt1_worker", "ct_task"}
 \* ct_task         an async task of a current-thread runtime
 AsyncCtx == {"mt_worker", "mt1_worker", "ct_task"}
 Homes == {"other", "caller_rt"}     \* where the actor's task runs
-Modes == {"responsive", "frozen", "full", "dead"}
+Modes == {"responsive", "frozen", "full", "dead", "thaw"}
 \* frozen: inside a handler that never finishes, one free slot.  full: frozen and no free slot.
+\* thaw: no free slot at first; at time Th < T the actor (if it runs) finishes the handler it is in and takes the queued
+\*       message, whose handler never finishes: a slot becomes free before the deadline, a reply never comes.  A timed call
+\*       is accepted at Th and must still be back at T (one deadline for send and reply, not one each).
+Th == 1
 Apis  == {"tell", "ask"}
 Forms == {"timed", "untimed", "alias"}    \* alias = deprecated tell_blocking / ask_blocking given Some(T): ignored
 Vias  == {"direct", "erased"}
@@ -68,9 +72,10 @@ VARIABLES cfg, now,
   queued,   \* our message is in the mailbox
   handled,  \* our message has been handled
   replied,  \* "no" | "yes" | "dropped"
-  alive     \* actor alive
+  alive,    \* actor alive
+  thawed    \* mode "thaw": the slot has been freed
 
-vars == <<cfg, now, cpc, hpc, hres, res, retAt, free, queued, handled, replied, alive>>
+vars == <<cfg, now, cpc, hpc, hres, res, retAt, free, queued, handled, replied, alive, thawed>>
 
 EffTimed == cfg.form = "timed" /\ (cfg.via = "direct" \/ KeepsTimeout)
 
@@ -93,7 +98,7 @@ TimerDriven == HelperRt = "private" \/ cfg.ctx = "thread" \/ CallerRtDriven
 Init ==
   /\ cfg \in Cfgs
   /\ now = 0 /\ cpc = "call" /\ hpc = "none" /\ hres = "" /\ res = "" /\ retAt = 0
-  /\ free = (IF cfg.mode = "full" THEN 0 ELSE 1)
+  /\ free = (IF cfg.mode \in {"full", "thaw"} THEN 0 ELSE 1) /\ thawed = FALSE
   /\ queued = FALSE /\ handled = FALSE /\ replied = "no"
   /\ alive = (cfg.mode # "dead")
 
@@ -108,61 +113,66 @@ Call ==
             /\ IF cfg.ctx \in AsyncCtx
                  THEN Return("panic")             \* tokio: cannot block the current thread from within a runtime
                  ELSE cpc' = "bsend" /\ UNCHANGED <<res, retAt>>
-  /\ UNCHANGED <<cfg, now, hres, free, queued, handled, replied, alive>>
+  /\ UNCHANGED <<cfg, thawed, now, hres, free, queued, handled, replied, alive>>
 
 BSend ==
   /\ cpc = "bsend"
   /\ \/ /\ ~alive /\ Return("send") /\ UNCHANGED <<free, queued>>
      \/ /\ alive /\ free > 0 /\ free' = free - 1 /\ queued' = TRUE
         /\ IF cfg.api = "tell" THEN Return("ok") ELSE cpc' = "brecv" /\ UNCHANGED <<res, retAt>>
-  /\ UNCHANGED <<cfg, now, hpc, hres, handled, replied, alive>>
+  /\ UNCHANGED <<cfg, thawed, now, hpc, hres, handled, replied, alive>>
 
 BRecv ==
   /\ cpc = "brecv" /\ replied # "no"
   /\ Return(IF replied = "yes" THEN "ok" ELSE "recv")
-  /\ UNCHANGED <<cfg, now, hpc, hres, free, queued, handled, replied, alive>>
+  /\ UNCHANGED <<cfg, thawed, now, hpc, hres, free, queued, handled, replied, alive>>
 
 Wait ==
   /\ cpc = "wait" /\ hpc = "done"
   /\ Return(hres) /\ hpc' = "gone"
-  /\ UNCHANGED <<cfg, now, hres, free, queued, handled, replied, alive>>
+  /\ UNCHANGED <<cfg, thawed, now, hres, free, queued, handled, replied, alive>>
 
 \* ---- the helper thread: runs timeout(T, op) with block_on on its own thread
 HStart ==
   /\ hpc = "start" /\ hpc' = "send"
-  /\ UNCHANGED <<cfg, now, cpc, hres, res, retAt, free, queued, handled, replied, alive>>
+  /\ UNCHANGED <<cfg, thawed, now, cpc, hres, res, retAt, free, queued, handled, replied, alive>>
 
 HSend ==
   /\ hpc = "send"
   /\ \/ /\ ~alive /\ hpc' = "done" /\ hres' = "send" /\ UNCHANGED <<free, queued>>
      \/ /\ alive /\ free > 0 /\ free' = free - 1 /\ queued' = TRUE
         /\ IF cfg.api = "tell" THEN hpc' = "done" /\ hres' = "ok" ELSE hpc' = "reply" /\ UNCHANGED hres
-  /\ UNCHANGED <<cfg, now, cpc, res, retAt, handled, replied, alive>>
+  /\ UNCHANGED <<cfg, thawed, now, cpc, res, retAt, handled, replied, alive>>
 
 HReply ==
   /\ hpc = "reply" /\ replied # "no"
   /\ hpc' = "done" /\ hres' = (IF replied = "yes" THEN "ok" ELSE "recv")
-  /\ UNCHANGED <<cfg, now, cpc, res, retAt, free, queued, handled, replied, alive>>
+  /\ UNCHANGED <<cfg, thawed, now, cpc, res, retAt, free, queued, handled, replied, alive>>
 
 HTimeout ==
   /\ hpc \in {"send", "reply"} /\ now >= T /\ TimerDriven
   /\ hpc' = "done" /\ hres' = "timeout"
-  /\ UNCHANGED <<cfg, now, cpc, res, retAt, free, queued, handled, replied, alive>>
+  /\ UNCHANGED <<cfg, thawed, now, cpc, res, retAt, free, queued, handled, replied, alive>>
 
 \* ---- the actor
 Take ==
   /\ ActorRuns /\ cfg.mode = "responsive" /\ queued /\ ~handled
   /\ handled' = TRUE /\ free' = free + 1
   /\ replied' = (IF cfg.api = "ask" THEN "yes" ELSE replied)
-  /\ UNCHANGED <<cfg, now, cpc, hpc, hres, res, retAt, queued, alive>>
+  /\ UNCHANGED <<cfg, thawed, now, cpc, hpc, hres, res, retAt, queued, alive>>
+
+Thaw ==
+  /\ ActorRuns /\ cfg.mode = "thaw" /\ ~thawed /\ now >= Th
+  /\ thawed' = TRUE /\ free' = free + 1
+  /\ UNCHANGED <<cfg, now, cpc, hpc, hres, res, retAt, queued, handled, replied, alive>>
 
 Tick ==
   /\ now < MaxNow
-  /\ ~ENABLED (Call \/ BSend \/ BRecv \/ Wait \/ HStart \/ HSend \/ HReply \/ HTimeout \/ Take)
+  /\ ~ENABLED (Call \/ BSend \/ BRecv \/ Wait \/ HStart \/ HSend \/ HReply \/ HTimeout \/ Take \/ Thaw)
   /\ now' = now + 1
-  /\ UNCHANGED <<cfg, cpc, hpc, hres, res, retAt, free, queued, handled, replied, alive>>
+  /\ UNCHANGED <<cfg, thawed, cpc, hpc, hres, res, retAt, free, queued, handled, replied, alive>>
 
-Next == Call \/ BSend \/ BRecv \/ Wait \/ HStart \/ HSend \/ HReply \/ HTimeout \/ Take \/ Tick
+Next == Call \/ BSend \/ BRecv \/ Wait \/ HStart \/ HSend \/ HReply \/ HTimeout \/ Take \/ Thaw \/ Tick
 
 Spec == Init /\ [][Next]_vars /\ WF_vars(Next)
 
@@ -172,7 +182,7 @@ Requested == cfg.form = "timed"      \* the user passed Some(T) to a non-depreca
 \* C17: given a timeout the call returns by the deadline, whatever the actor does and wherever the caller runs ...
 ByDeadline == cpc = "returned" /\ Requested => retAt <= T
 \* ... it does return (checked at the end of time: the only step left is stuttering) ...
-ReturnsInv == now = MaxNow /\ Requested /\ ~ENABLED (Call \/ BSend \/ BRecv \/ Wait \/ HStart \/ HSend \/ HReply \/ HTimeout \/ Take)
+ReturnsInv == now = MaxNow /\ Requested /\ ~ENABLED (Call \/ BSend \/ BRecv \/ Wait \/ HStart \/ HSend \/ HReply \/ HTimeout \/ Take \/ Thaw)
                 => cpc = "returned"
 Returns == Requested => <>(cpc = "returned")
 \* ... and never panics, async context or not
@@ -186,7 +196,7 @@ Delivery == cpc = "returned" =>
 \* C16: the wrapper changes nothing -- same outcome and same return time as the direct call in the same configuration
 \* (evaluated by the case comparison: see CaseOut)
 
-Terminal == ~ENABLED (Call \/ BSend \/ BRecv \/ Wait \/ HStart \/ HSend \/ HReply \/ HTimeout \/ Take) /\ now = MaxNow
+Terminal == ~ENABLED (Call \/ BSend \/ BRecv \/ Wait \/ HStart \/ HSend \/ HReply \/ HTimeout \/ Take \/ Thaw) /\ now = MaxNow
 
 CaseOut == [cfg |-> cfg, res |-> (IF cpc = "returned" THEN res ELSE "blocked"), at |-> retAt, queued |-> queued]
 EmitCases == Terminal /\ Emit => PrintT(<<"CASE", ToJson(CaseOut)>>)
